@@ -49,6 +49,16 @@ CHECKS = {
    note="Trusted: simrt + instrumenter; commit tap. Dependents created by third parties after the teardown began are not counted against the cleanup handler. Sampling only.",
    technique=TECH+"safety invariants checked on every prefix of the commit-tap log",
    ref="DESIGN.md §7 C07"),
+ "C11": dict(level="exploration",
+   text="Seeded differential execution: the same operation sequence (all options: owners, expected phases, stale versions, label/id selectors, bookmarks, tails, aggregated, skip-unmarshal, native Teardown RPCs and an old server answering Unimplemented) is applied step by step to a direct state and to client adapter -> simulated transport -> server -> state; results, error classes, written-back metadata (checked against the remote store) and, at quiescence, the watch event sequences must agree, and the sticky fallback must stop calling the missing RPC. A table of hand-crafted malformed wire requests is fired at the server handlers: a handler panic is a server crash.",
+   note="Trusted: simrt + instrumenter; the in-process transport replaces gRPC/HTTP2 (it marshals/unmarshals every message with vtproto and maps handler errors through status as grpc-go does). Tombstones travel as resources with empty spec - treated as equal. Commit times are compared only inside the remote world. Two genuine server crashes found here were repaired in /repo. Sampling of sequences; the malformed-request table is fixed, not exhaustive.",
+   technique=TECH+"differential execution direct vs. simulated gRPC leg, malformed-request fault injection at the wire interface",
+   ref="DESIGN.md §7 C11"),
+ "C13": dict(level="fault_enumeration",
+   text="For every sampled history (writers keep writing to the server during outages; one client-side watch of any flavour) the fault-free run is followed by the enumeration of every stream message index as reset point, alone, followed by 1-3 failed re-establishments (at Watch() or at first Recv) and by a second reset of the resumed stream, plus establishment failures, retries-disabled and sampled multi-reset / long-outage scripts. Each sub-run's client stream must be the server's commit log from its establishment point without loss, duplication or reordering, or a gap-free prefix ending in exactly one Errored that has a permitted cause (no bookmark seen, bookmark expired, retries disabled or exhausted).",
+   note="Trusted: simrt + instrumenter; commit tap on the server store; transport stub as in C11; cenkalti/backoff runs for real on the virtual clock (15-minute retry budget costs microseconds). In the quick tier the enumeration is sampled down to 30 scripts per history when larger (reported as enumeration-sampled vs enumeration-complete probes); the thorough tier runs all.",
+   technique=TECH+"per-history enumeration of stream-reset positions and re-establishment failures on the simulated transport, stream compared with the server's commit-tap log",
+   ref="DESIGN.md §7 C13"),
 }
 
 NOT_YET = "check not built yet in this round (planned in DESIGN.md §7); no claim is made"
